@@ -1,5 +1,8 @@
 import Bifrost.Model.Links
+import Bifrost.Model.LinksConc
 import Bifrost.Lemmas.Links
+import Bifrost.Lemmas.LinksUuid
+import Bifrost.Lemmas.LinksConc
 /-!
 C06 — Link tables stay consistent with the history of link events.
 Model of the code as fixed by "fix: late loss of a replaced link removed the newer link with
@@ -96,5 +99,107 @@ theorem lost_never_again_false :
 /-- Non-vacuity. -/
 example : (run [.start 1, .est ⟨1, 7, 2⟩, .est ⟨2, 7, 2⟩, .lost ⟨1, 7, 2⟩]).links = [⟨2, 7, 2⟩] := by
   decide
+
+/-! ### Links whose uuid changes after establishment (`HandleLinkLost` slow path)
+
+The record of an op carries the uuid the link object reports AT THAT CALL. `WFU` only asks the
+establishment records of a link object to agree; its loss reports may carry any uuid (the uuid
+changed after establishment), in particular the uuid under which ANOTHER live link is stored. -/
+
+def estOf : Op → Option Link
+  | .est l => some l
+  | _ => none
+
+def WFU (ops : List Op) : Prop :=
+  ∀ l ∈ ops.filterMap estOf, ∀ l' ∈ ops.filterMap estOf, l.id = l'.id → l = l'
+
+/-- `WFU` is weaker than `WF`: every theorem under `WFU` covers the well-formed histories. -/
+theorem wfu_of_wf (ops : List Op) (h : WF ops) : WFU ops := by
+  have hw : WFH ops := wfh_of_eq (f := linkOf) (by funext op; cases op <;> rfl) h
+  exact WFE_of_WFH hw
+
+/-- Refinement for histories with uuid changes: the tables are the spec's set of links
+established and not yet lost whatever uuid the loss reports carry (fast path, slow path by
+identity when the uuid entry is absent or another link object). -/
+theorem refines_uuid_change (ops : List Op) (h : WFU ops) :
+    (run ops).links = (specRun ops).live ∧
+    (∀ x, x ∈ (run ops).peerLinks ↔ x ∈ (run ops).links) ∧
+    (∀ i, i ∈ (run ops).closed ↔ i ∈ (specRun ops).closed) ∧
+    (run ops).running = (specRun ops).running ∧ (run ops).localPeer = (specRun ops).localPeer := by
+  obtain ⟨_, hI⟩ := inv_run_wfe ops (wfe_of_eq (f := estOf) (by funext op; cases op <;> rfl) h)
+  exact ⟨hI.links_eq, hI.peer, hI.closed, hI.running, hI.localPeer⟩
+
+/-- A loss report carrying ANY uuid removes exactly its own link object: the object is gone,
+every other link stays (also the one stored under the reported uuid), the object is closed if
+it was in the table, and the two tables still agree. -/
+theorem lost_after_uuid_change (ops : List Op) (l : Link) (h : WFU (ops ++ [.lost l])) :
+    (∀ x ∈ (run (ops ++ [.lost l])).links, x.id ≠ l.id) ∧
+    (∀ x ∈ (run ops).links, x.id ≠ l.id → x ∈ (run (ops ++ [.lost l])).links) ∧
+    (∀ x ∈ (run ops).links, x.id = l.id → l.id ∈ (run (ops ++ [.lost l])).closed) ∧
+    (∀ x, x ∈ (run (ops ++ [.lost l])).peerLinks ↔ x ∈ (run (ops ++ [.lost l])).links) :=
+  lost_any_uuid (wfe_of_eq (f := estOf) (by funext op; cases op <;> rfl) h)
+
+/-- The code BEFORE the fix (`flushEstablishedLink` deleted the entry under the uuid the link
+reports now): link 1 (stored under 7) now reports uuid 8, under which link 2 is stored; the
+loss of link 1 removed link 2 from the links table but not from the per-peer table, while the
+links established and not yet lost are {2}. -/
+theorem unfixed_flush_removes_other_link :
+    (lostSlowUnfixed (run [.start 1, .est ⟨1, 7, 2⟩, .est ⟨2, 8, 3⟩]) ⟨1, 7, 2⟩ 8).links = [] ∧
+    (lostSlowUnfixed (run [.start 1, .est ⟨1, 7, 2⟩, .est ⟨2, 8, 3⟩]) ⟨1, 7, 2⟩ 8).peerLinks = [⟨2, 8, 3⟩] ∧
+    (specRun [.start 1, .est ⟨1, 7, 2⟩, .est ⟨2, 8, 3⟩, .lost ⟨1, 8, 2⟩]).live = [⟨2, 8, 3⟩] := by
+  decide
+
+/-- Non-vacuity: the slow path with the uuid entry being another live link. -/
+example : (run [.start 1, .est ⟨1, 7, 2⟩, .est ⟨2, 8, 3⟩, .lost ⟨1, 8, 2⟩]).links = [⟨2, 8, 3⟩] ∧
+    WFU [.start 1, .est ⟨1, 7, 2⟩, .est ⟨2, 8, 3⟩, .lost ⟨1, 8, 2⟩] ∧
+    ¬ WF [.start 1, .est ⟨1, 7, 2⟩, .est ⟨2, 8, 3⟩, .lost ⟨1, 8, 2⟩] := by
+  refine ⟨by decide, by unfold WFU; decide, ?_⟩
+  intro h
+  exact absurd (h ⟨1, 7, 2⟩ (by decide) ⟨1, 8, 2⟩ (by decide) rfl) (by decide)
+
+/-! ### Events delivered from concurrent goroutines
+
+Every handler call is one critical section; a goroutine issues its next event after the
+critical section of its previous one. The behaviours of the controller on a batch `gs` of
+per-goroutine sequences are the folds of `step` over the interleavings `Merge gs σ`. All
+theorems above quantify over ALL op sequences, hence over all interleavings; the statements
+below make the batch form explicit (it is what the engine's `links.linearize` computes). -/
+
+/-- `Merge gs σ` is what it should be: `σ` is a permutation of the events of the batch that
+keeps the sequence of every goroutine as a subsequence. -/
+theorem merge_is_interleaving (gs : List (List Op)) (σ : List Op) (h : Merge gs σ) :
+    σ.Perm gs.flatten ∧ ∀ g ∈ gs, g.Sublist σ :=
+  ⟨h.perm, h.sublist⟩
+
+/-- The states computed for a batch delivered after `pre` are exactly the states reached by
+running `pre` followed by an interleaving of the batch. -/
+theorem concurrent_outcomes (pre : List Op) (gs : List (List Op)) (s' : State) :
+    s' ∈ finals (run pre) gs ↔ ∃ σ, Merge gs σ ∧ s' = run (pre ++ σ) := by
+  rw [mem_finals]
+  constructor
+  · rintro ⟨σ, h, rfl⟩; exact ⟨σ, h, (run_append pre σ).symm⟩
+  · rintro ⟨σ, h, rfl⟩; exact ⟨σ, h, run_append pre σ⟩
+
+/-- Whatever the interleaving, the outcome of a concurrently delivered batch refines the spec
+of THAT interleaving: the tables are its set of links established and not yet lost, the two
+tables agree, the closed sets agree, and there is one entry per uuid and per link object. -/
+theorem concurrent_batch_refines (pre : List Op) (gs : List (List Op))
+    (h : WFU (pre ++ gs.flatten)) (s' : State) (hs : s' ∈ finals (run pre) gs) :
+    ∃ σ, Merge gs σ ∧ s' = run (pre ++ σ) ∧
+      s'.links = (specRun (pre ++ σ)).live ∧
+      (∀ x, x ∈ s'.peerLinks ↔ x ∈ s'.links) ∧
+      (∀ i, i ∈ s'.closed ↔ i ∈ (specRun (pre ++ σ)).closed) ∧
+      (s'.links.map (·.uuid)).Nodup ∧ (s'.links.map (·.id)).Nodup := by
+  obtain ⟨σ, hm, rfl⟩ := (concurrent_outcomes pre gs s').1 hs
+  have hw : WFE (pre ++ σ) :=
+    WFE_perm_suffix hm.perm (wfe_of_eq (f := estOf) (by funext op; cases op <;> rfl) h)
+  obtain ⟨_, hI⟩ := inv_run_wfe _ hw
+  exact ⟨σ, hm, rfl, hI.links_eq, hI.peer, hI.closed, hI.nd_uuid, hI.nd_id⟩
+
+/-- Non-vacuity: the same link reported by two goroutines while a third reports its loss has
+three interleaving classes (lost first / between / last). -/
+example : (finals (run [.start 1]) [[.est ⟨1, 7, 2⟩], [.est ⟨1, 7, 2⟩], [.lost ⟨1, 7, 2⟩]]).map
+    (fun s => (s.links.map (·.id), s.closed)) =
+    [([], [1]), ([1], [1]), ([], [1]), ([1], [1]), ([1], []), ([1], [])] := by decide
 
 end Bifrost.Props.C06
